@@ -30,10 +30,11 @@ type Reg struct {
 }
 
 type Inst struct {
-	Kind string   `json:"kind"` // router hosts group
-	Regs []Reg    `json:"regs"`
-	Doms []string `json:"doms,omitempty"`
-	Lock bool     `json:"lock"`
+	Kind  string   `json:"kind"` // router hosts group
+	Regs  []Reg    `json:"regs"`
+	Doms  []string `json:"doms,omitempty"`
+	Lock  bool     `json:"lock"`
+	Trace bool     `json:"trace"`
 }
 
 type Case struct {
@@ -63,7 +64,7 @@ func genRegs(t *rapid.T, min, max int) []Reg {
 }
 
 func genInst(t *rapid.T) Inst {
-	in := Inst{Kind: rapid.SampledFrom([]string{"router", "router", "hosts", "group"}).Draw(t, "ikind"), Lock: rapid.Bool().Draw(t, "ilock")}
+	in := Inst{Kind: rapid.SampledFrom([]string{"router", "router", "hosts", "group"}).Draw(t, "ikind"), Lock: rapid.Bool().Draw(t, "ilock"), Trace: rapid.Bool().Draw(t, "itrace")}
 	in.Regs = genRegs(t, 3, 12)
 	in.Doms = rapid.SliceOfN(rapid.SampledFrom(domains), 1, 6).Draw(t, "doms")
 	return in
@@ -194,18 +195,26 @@ func runInst(in Inst, tag string) *rig.Violation {
 	env := rig.NewEnv()
 	var r *rig.Router
 	var front http.Handler
+	var wantOnion []string
 	prefix := ""
 	if in.Kind == "group" {
 		g := env.NewGroup()
 		g.Use(env.NewMW("mg"))
-		rr := g.New("r-"+tag, mux.NewPathVersion("", "v1"), mux.WithLock(in.Lock))
+		own, _ := env.Options(rig.Opts{Lock: in.Lock, Trace: in.Trace})
+		rr := g.New("r-"+tag, mux.NewPathVersion("", "v1"), own...)
 		r = &rig.Router{Router: rr, Env: env}
 		front, prefix = g, "/v1"
+		// a sibling router of the same group with middlewares of its own: what it does must not show on r
+		sib := g.New("sib-"+tag, mux.NewPathVersion("", "v2"))
+		rr.Use(env.NewMW("own"))
+		sib.Use(env.NewMW("sibling"))
+		g.Use(env.NewMW("mg2"))
+		wantOnion = []string{"mg2", "own", "mg"}
 	} else {
-		r = env.NewRouter("r-"+tag, rig.Opts{Lock: in.Lock})
+		r = env.NewRouter("r-"+tag, rig.Opts{Lock: in.Lock, Trace: in.Trace})
 		front = r
 	}
-	m := ref.NewTable(false)
+	m := ref.NewTable(in.Trace)
 	for i, rg := range in.Regs {
 		if rg.Remove {
 			r.Remove(rg.Pattern, rg.Methods...)
@@ -232,6 +241,9 @@ func runInst(in Inst, tag string) *rig.Violation {
 				}
 				if want := m.Serves(p, meth); want != "" && o.BaseID != want {
 					return rig.Violf("instance-oracle", "%s: %s %s ran %s, registered %s", tag, meth, path, o.BaseID, want)
+				}
+				if fmt.Sprint(o.Trace) != fmt.Sprint(wantOnion) {
+					return rig.Violf("instance-oracle", "%s: %s %s ran middlewares %v, this router was given %v", tag, meth, path, o.Trace, wantOnion)
 				}
 				if !rig.EqualSets(o.NodeMethods, m.AllowSet(p)) {
 					return rig.Violf("instance-oracle", "%s: %s %s reports methods %v, own table says %v", tag, meth, path, o.NodeMethods, m.AllowSet(p))
